@@ -148,6 +148,13 @@ proof fn id_det_expand_int(s: int, t: int, a: int, b: int, d: int) by (nonlinear
 proof fn id_det_diag_int(s: int, t: int, a: int, b: int) by (nonlinear_arith)
     ensures 1 * (s * a) + (-(1 * (-(t * b)))) == s * a + t * b {}
 
+/// (y - p) - t = y - (p + t)      and      x - 0 = x
+#[verifier::external_body] pub proof fn id_sub_sub(y: int, p: int, t: int) ensures rsub(rsub(y, p), t) == rsub(y, radd(p, t)), rsub(y, r0()) == y {}
+proof fn id_sub_sub_int(y: int, p: int, t: int) ensures (y + (-p)) + (-t) == y + (-(p + t)), y + (-0int) == y {}
+/// u (b w) = b (u w)
+#[verifier::external_body] pub proof fn id_mul_swap3(u: int, b: int, w: int) ensures rmul(u, rmul(b, w)) == rmul(b, rmul(u, w)) {}
+proof fn id_mul_swap3_int(u: int, b: int, w: int) by (nonlinear_arith) ensures u * (b * w) == b * (u * w) {}
+
 #[verifier::external_body] pub proof fn id_neg_zero() ensures rneg(r0()) == r0() {}
 proof fn id_neg_zero_int() ensures -0int == 0int {}
 
@@ -239,6 +246,8 @@ impl ERL for &mut ER { open spec fn v(&self) -> int { self.e@ } }
 #[verifier::external_body] pub fn ne_<A: ERL, B: ERL>(a: A, b: B) -> (r: bool) ensures r == (a.v() != b.v()) { unimplemented!() }
 #[verifier::external_body] pub fn div_assign_<B: ERL>(a: &mut ER, b: B) requires b.v() != r0() ensures (*final(a)).v() == rdiv((*old(a)).v(), b.v()) { unimplemented!() }
 #[verifier::external_body] pub fn mul_assign_<B: ERL>(a: &mut ER, b: B) ensures (*final(a)).v() == rmul((*old(a)).v(), b.v()) { unimplemented!() }
+#[verifier::external_body] pub fn add_assign_<B: ERL>(a: &mut ER, b: B) ensures (*final(a)).v() == radd((*old(a)).v(), b.v()) { unimplemented!() }
+#[verifier::external_body] pub fn sub_assign_<B: ERL>(a: &mut ER, b: B) ensures (*final(a)).v() == rsub((*old(a)).v(), b.v()) { unimplemented!() }
 
 impl ER {
     #[verifier::external_body] pub fn clone(&self) -> (r: ER) ensures r.v() == self.v() { unimplemented!() }
